@@ -103,6 +103,15 @@ VALS = [0, 1, 2, 3, 5, 0.5, 1.75, 4, 7]
 NEGS = [-1, -3, -0.25, -2]
 
 
+def assert_exact(vals):
+    """the streams compare Python's float arithmetic with exact rationals: every generated number is an int, or a float with at most 10
+    fractional bits and magnitude <= 2^30 (so that every sum the functions form is exactly representable); large magnitudes are ints"""
+    for y in vals:
+        if y is None or isinstance(y, int): continue
+        f = Fraction(y)
+        assert abs(f) <= 2 ** 30 and (f * 1024).denominator == 1, ("inexact generator value", y)
+
+
 def gen_case(name, rng, i):
     """case i: boundary inputs first, then random ones (malformed ones included)"""
     if name == "max_occurrence":
@@ -132,6 +141,7 @@ def gen_case(name, rng, i):
                 seq.append((rng.randrange(n), rng.randrange(n)))
         keys = list(dict.fromkeys(seq + [(rng.randrange(n), rng.randrange(n)) for _ in range(2)]))
         lens = [(e, rng.choice(VALS + ([-1] if rng.random() < 0.1 else []))) for e in keys if rng.random() < 0.5]
+        assert_exact([x for _, x in lens])
         return (seq, paths, lens)
     if name == "nonneg_check":
         def g(edges): return (sorted({x for e in edges for x in e[:2]}), edges)
@@ -161,6 +171,7 @@ def gen_case(name, rng, i):
         else:
             ign = {(u, v) for (u, v, w) in edges if rng.random() < (0.5 if (w is None or w < 0) else 0.15)}
             if rng.random() < 0.2: ign.add((rng.randrange(6), rng.randrange(6)))
+        assert_exact([w for (_, _, w) in edges])
         return ((list(range(n)), edges), ign)
     if name == "check_flow_conservation":
         big = 10 ** 12
@@ -188,7 +199,11 @@ def gen_case(name, rng, i):
         edges = list(w.items()); rng.shuffle(edges)
         edges = [(u, v, x) for ((u, v), x) in edges]
         if edges and mode in ("perturbed", "big") and rng.random() < 0.8:
-            k = rng.randrange(len(edges)); u, v, x = edges[k]; edges[k] = (u, v, x + rng.choice([1, 1, 2, 0.5]))
+            k = rng.randrange(len(edges)); u, v, x = edges[k]
+            # large magnitudes stay integers (Python ints are exact); a fractional part only where every sum the function forms is exactly representable
+            big_vals = any(abs(y) > 2 ** 30 for (_, _, y) in edges if y is not None)
+            edges[k] = (u, v, x + (rng.choice([1, 1, 2]) if big_vals else rng.choice([1, 1, 2, 0.5])))
+        assert_exact([y for (_, _, y) in edges])
         if edges and mode == "missing":
             k = rng.randrange(len(edges)); u, v, x = edges[k]; edges[k] = (u, v, None)
         return ((nodes, edges),)
